@@ -5,9 +5,9 @@ Model A = Flatland/Path.lean (`fqName`, `find`), spec B = Flatland/Spec/C13.lean
 
 * `find_fq`        for every tree, every start element (anywhere, strict or not) and every
                    position `pos` that is `PathOK` — it exists, the Dict keys on the way address
-                   their own child, the field names on the way are non-empty, have no backslash
-                   directly before `.`/`]`, and only the last may end in a backslash; sequence
-                   indexes stay below the interpreter's int-digit limit —
+                   their own child, the field names on the way are non-empty and only the last
+                   may end in a backslash; sequence indexes stay below the interpreter's
+                   int-digit limit —
                    `find(start, fq_name(pos)) = [pos]`;
 * `fqName_root`    the root's `fq_name()` is `/`;
 * `tokenize_fqName` `tokenize(fq_name(pos)) = [TOP] ++ [NAME seg ...]` with the *unescaped* segments;
@@ -16,7 +16,10 @@ Model A = Flatland/Path.lean (`fqName`, `find`), spec B = Flatland/Spec/C13.lean
                    the library guarantees (`TreeInv`: scalars are leaves, Dict keys are unique,
                    sequences are shorter than 10^4300);
 * `C13_Full` / `C13_full_fails`  the unrestricted law is false of the code as it is: a Dict field
-                   named `""` (KF-C13-b); `C13_full_fails_backslash`: a field named `a\.b` (KF-C13-a).
+                   named `""` (KF-C13-b); `C13_full_fails_backslash`: a Dict named `y\` with a
+                   child (KF-C13-a: nothing below a name ending in a backslash can be addressed);
+* `C13_backslash_dot_ok`  a field named `a\.b` — the part of KF-C13-a fixed by b49b3eb — now
+                   satisfies the law.
 -/
 import Flatland.Path
 import Flatland.Spec.C13
@@ -25,7 +28,7 @@ import Proofs.Lemmas.PathScan
 import Proofs.Lemmas.PathEscape
 import Proofs.Lemmas.C14Work
 namespace Flatland.C13.Proofs
-open Flatland.Path Flatland.C13.Spec Flatland.Path.Lemmas Flatland.Generated.C14
+open Flatland.Path Flatland.C13.Spec Flatland.Path.Lemmas Flatland.Generated.C14 Flatland.C14.Proofs
 
 /-! ### what `fq_name` emits -/
 
@@ -74,8 +77,7 @@ def stepOK (k : Kind) (kids : List Node) (i : Nat) (c : Node) (lastStep : Bool) 
   match k with
   | .scalar => false
   | .map =>
-    findName c.name kids == some i && !c.name.isEmpty && !hasBackslashDot c.name
-      && (lastStep || !endsWithBackslash c.name)
+    findName c.name kids == some i && !c.name.isEmpty && (lastStep || !endsWithBackslash c.name)
   | _ => decide ((natStr i).length ≤ intMaxDigits ∨ intMaxDigits = 0)
 
 def PathOK : Node → Pos → Bool
@@ -95,11 +97,11 @@ theorem segText_facts (k : Kind) (kids : List Node) (i : Nat) (c : Node) (lastSt
   | array => simp only [segText]; have := natStr_facts lastStep i; exact ⟨this.1, this.2.1, this.2.2.1⟩
   | map =>
     simp only [stepOK, Bool.and_eq_true, Bool.not_eq_true', Bool.or_eq_true, beq_iff_eq] at h
-    obtain ⟨⟨⟨_, h2⟩, h3⟩, h4⟩ := h
+    obtain ⟨⟨_, h2⟩, h4⟩ := h
     have hne : c.name ≠ [] := by
       intro e; rw [e] at h2; simp at h2
     have he : lastStep = true ∨ endsWithBackslash c.name = false := h4
-    have := escapeName_facts lastStep c.name hne h3 he
+    have := escapeName_facts lastStep c.name hne he
     simp only [segText]
     exact ⟨this.1, this.2.1, this.2.2.1⟩
 
@@ -177,10 +179,10 @@ theorem unescape_segText (k : Kind) (kids : List Node) (i : Nat) (c : Node) (las
   | array => simp only [segText]; exact (natStr_facts lastStep i).2.2.2
   | map =>
     simp only [stepOK, Bool.and_eq_true, Bool.not_eq_true', Bool.or_eq_true, beq_iff_eq] at h
-    obtain ⟨⟨⟨_, h2⟩, h3⟩, h4⟩ := h
+    obtain ⟨⟨_, h2⟩, h4⟩ := h
     have hne : c.name ≠ [] := by
       intro e; rw [e] at h2; simp at h2
-    have := escapeName_facts lastStep c.name hne h3 h4
+    have := escapeName_facts lastStep c.name hne h4
     simp only [segText]
     exact this.2.2.2
 
@@ -197,7 +199,7 @@ theorem index_segText (k : Kind) (nm : Str) (kids : List Node) (i : Nat) (c : No
   | scalar => simp [stepOK] at h
   | map =>
     simp only [stepOK, Bool.and_eq_true, beq_iff_eq] at h
-    simp [Node.index, Node.kind, Node.kids, h.1.1.1]
+    simp [Node.index, Node.kind, Node.kids, h.1.1]
   | list =>
     simp only [stepOK, decide_eq_true_eq] at h
     simp [Node.index, Node.kind, Node.kids, pyInt_natStr i h, pyListIndex_nat _ _ hi]
@@ -322,7 +324,7 @@ theorem C13_partial (root : Node)
 /-- non-vacuity: Dict{"a/b": List[String, String], "..": String}; every position is PathOK -/
 example : PathOK (.mk .map [] [.mk .list ['a', '/', 'b'] [.mk .scalar [] [], .mk .scalar [] []],
       .mk .scalar ['.', '.'] []]) [0, 1] = true := by
-  simp [PathOK, stepOK, findName, Node.name, hasBackslashDot, endsWithBackslash, intMaxDigits, natStr]
+  simp [PathOK, stepOK, findName, Node.name, endsWithBackslash, intMaxDigits, natStr]
 
 /-! ### from spec B's `addressable` and the library's tree invariants -/
 
@@ -363,7 +365,7 @@ theorem pathOK_of_addressableFrom (root : Node) (hinv : TreeInv root) : ∀ (pos
       | map =>
         simp only [bne_self_eq_false, Bool.false_or, Bool.and_eq_true] at hname
         simp only [stepOK, Bool.and_eq_true, beq_iff_eq]
-        exact ⟨⟨⟨h2 rfl i c hk, hname.1.1⟩, hname.1.2⟩, hname.2⟩
+        exact ⟨⟨h2 rfl i c hk, hname.1⟩, hname.2⟩
 
 /-- **spec B's restriction suffices**: on a tree with the library's invariants every
     `addressable` element is found, alone, by its `fq_name()` from every start -/
@@ -410,11 +412,25 @@ theorem C13_full_fails : ¬ C13_Full := by
 /-- Dict{"a\\.b": String} -/
 def witnessBackslash : Node := .mk .map ['r'] [.mk .scalar ['a', '\\', '.', 'b'] []]
 
-theorem witnessBackslash_inv : TreeInv witnessBackslash := by
+/-- the half of KF-C13-a fixed by b49b3eb: a field named `a\.b` is found by its `fq_name()`
+    (`/a\\.b`) -/
+theorem C13_backslash_dot_ok : Inverse witnessBackslash := by
+  apply C13_partial
+  intro pos hp
+  match pos, hp with
+  | [], _ => rfl
+  | [0], _ => simp [witnessBackslash, PathOK, stepOK, findName, Node.name, endsWithBackslash]
+  | 0 :: j :: q, hp => simp [witnessBackslash, Node.get?] at hp
+  | (i + 1) :: q, hp => simp [witnessBackslash, Node.get?] at hp
+
+/-- Dict{"y\\": Dict{"z": String}} -/
+def witnessTrailing : Node := .mk .map ['r'] [.mk .map ['y', '\\'] [.mk .scalar ['z'] []]]
+
+theorem witnessTrailing_inv : TreeInv witnessTrailing := by
   intro p k nm kids h
   match p, h with
   | [], h =>
-    simp only [witnessBackslash, Node.get?, Option.some.injEq, Node.mk.injEq] at h
+    simp only [witnessTrailing, Node.get?, Option.some.injEq, Node.mk.injEq] at h
     obtain ⟨rfl, rfl, rfl⟩ := h
     refine ⟨by simp, ?_, by simp⟩
     intro _ i c hc
@@ -422,31 +438,40 @@ theorem witnessBackslash_inv : TreeInv witnessBackslash := by
     | 0, hc => simp at hc; subst hc; simp [findName, Node.name]
     | i + 1, hc => simp at hc
   | [0], h =>
-    simp only [witnessBackslash, Node.get?, List.getElem?_cons_zero, Option.some.injEq, Node.mk.injEq] at h
+    simp only [witnessTrailing, Node.get?, List.getElem?_cons_zero, Option.some.injEq, Node.mk.injEq] at h
+    obtain ⟨rfl, rfl, rfl⟩ := h
+    refine ⟨by simp, ?_, by simp⟩
+    intro _ i c hc
+    match i, hc with
+    | 0, hc => simp at hc; subst hc; simp [findName, Node.name]
+    | i + 1, hc => simp at hc
+  | [0, 0], h =>
+    simp only [witnessTrailing, Node.get?, List.getElem?_cons_zero, Option.some.injEq, Node.mk.injEq] at h
     obtain ⟨rfl, rfl, rfl⟩ := h
     exact ⟨by simp, by simp, by simp⟩
-  | 0 :: j :: q, h => simp [witnessBackslash, Node.get?] at h
-  | (i + 1) :: q, h => simp [witnessBackslash, Node.get?] at h
+  | 0 :: 0 :: j :: q, h => simp [witnessTrailing, Node.get?] at h
+  | 0 :: (j + 1) :: q, h => simp [witnessTrailing, Node.get?] at h
+  | (i + 1) :: q, h => simp [witnessTrailing, Node.get?] at h
 
-/-- KF-C13-a: the field named `a\.b` has `fq_name()` `/a\.b`, which `find` reads as the name
-    `a.b` and, strictly, raises LookupError -/
-theorem C13_full_fails_backslash : ¬ Inverse witnessBackslash := by
+/-- KF-C13-a (what is left of it): the field `z` below the Dict named `y\` has `fq_name()`
+    `/y\/z`, which `find` reads as the single name `y/z` and, strictly, raises LookupError -/
+theorem C13_full_fails_backslash : ¬ Inverse witnessTrailing := by
   intro h
-  have hinv := h.2 [] [0] rfl rfl
+  have hinv := h.2 [] [0, 0] rfl rfl
   unfold isInverseAt at hinv
-  have hfq : fqName witnessBackslash [0] = slashJoin [['a', '\\', '.', 'b']] := by decide
-  have hclean : cleanB true ['a', '\\', '.', 'b'] = true := by
-    simp [cleanB_cons, isEscapable, cleanB_nil]
-  have hplain : PlainSeg ['a', '\\', '.', 'b'] := ⟨by decide, by decide, by decide, by decide⟩
-  have htok := tokenize_segs ['a', '\\', '.', 'b'] [] ⟨by simp, hclean⟩
+  have hfq : fqName witnessTrailing [0, 0] = slashJoin [['y', '\\', '/', 'z']] := by decide
+  have hclean : cleanB true ['y', '\\', '/', 'z'] = true := by
+    simp [cleanB_cons, isEscapable, cleanB_nil']
+  have hplain : PlainSeg ['y', '\\', '/', 'z'] := ⟨by decide, by decide, by decide, by decide⟩
+  have htok := tokenize_segs ['y', '\\', '/', 'z'] [] ⟨by simp, hclean⟩
     (by intro x hx; simp at hx; subst hx; exact hplain)
-  have hun : unescape ['a', '\\', '.', 'b'] = ['a', '.', 'b'] := by
-    simp [unescape_cons, isUnescapable, unescape_nil]
+  have hun : unescape ['y', '\\', '/', 'z'] = ['y', '/', 'z'] := by
+    simp [unescape_cons, isUnescapable, unescape_nil']
   unfold find at hinv
   rw [hfq, htok] at hinv
   simp only [List.map_cons, List.map_nil, hun] at hinv
-  have hz : Flatland.C14.Proofs.NoZero [Op.top, Op.name (some ['a', '.', 'b'])] = true := by decide
-  have hw := Flatland.C14.Proofs.work_level witnessBackslash true _ _ (Nat.le_refl _) hz [[]]
+  have hz : Flatland.C14.Proofs.NoZero [Op.top, Op.name (some ['y', '/', 'z'])] = true := by decide
+  have hw := Flatland.C14.Proofs.work_level witnessTrailing true _ _ (Nat.le_refl _) hz [[]]
   simp only [List.map_cons, List.map_nil] at hw
   unfold evalOps at hinv
   rw [hw] at hinv
